@@ -104,6 +104,15 @@ def run(chk):
                    p.ret_inst.loc, fn.name)
         else:
             chk.ob("U3.fresh-after-dispatch", pid, False, "returns %s: neither now nor get_next_wakeup()" % fmt(p.ret)[:60], p.ret_inst.loc, fn.name)
+    # a request accepted by fibre_run_atomic makes its fibre runnable (so the pass returns `now`) only if the drain reads the
+    # slot before handing it back (C07 R3)
+    from . import C07
+    lib = build.load_units(build.library_units(), "default")
+    chk.rule_prefix = "C07."
+    chk.rule_filter = lambda r: r.startswith("R3")
+    C07.check_r3_slots(chk, "default", lib)
+    chk.rule_prefix = ""
+    chk.rule_filter = None
     mp = build.load_unit("librfn/posix/fibre_posix.c")
     chk.note_unit(mp)
     chk.rule_prefix = "C02."
